@@ -123,3 +123,36 @@ Proof.
   intros Hp. rewrite gen_view1d_evals_const_eq, gen_view1d_evals_nonconst_eq, view_off_1d by exact Hp.
   rewrite Nat2Z.inj_add, Nat2Z.inj_mul. split; reflexivity.
 Qed.
+
+(** * BlockIndexing.h: flat indices precomputed by the index-tensor overloads of operator()
+    (non-const and const copies), as translated, are the entries of the model's idx2 / idx_col /
+    idx_row / idx_it_range / idx_range_it (Model/RandomViews.v) *)
+From FastorV Require Import Model.RandomViews.
+Local Open Scope Z_scope.
+Lemma gen_bidx_eq a b num f s ncols i j :
+  (gen_bidx_it_it_nonconst a b num f s ncols i j = a * ncols + b /\ gen_bidx_it_it_const a b num f s ncols i j = a * ncols + b) /\
+  (gen_bidx_it_num_nonconst a b num f s ncols i j = a * ncols + num /\ gen_bidx_it_num_const a b num f s ncols i j = a * ncols + num) /\
+  (gen_bidx_num_it_nonconst a b num f s ncols i j = num * ncols + a /\ gen_bidx_num_it_const a b num f s ncols i j = num * ncols + a) /\
+  (gen_bidx_it_fseq_nonconst a b num f s ncols i j = a * ncols + (f + j * s) /\ gen_bidx_it_fseq_const a b num f s ncols i j = a * ncols + (f + j * s)) /\
+  (gen_bidx_fseq_it_nonconst a b num f s ncols i j = (f + i * s) * ncols + b /\ gen_bidx_fseq_it_const a b num f s ncols i j = (f + i * s) * ncols + b) /\
+  (* the compile-time range is normalised against the column count in A(it, fseq), the row count in A(fseq, it) *)
+  (gen_bidx_it_fseq_axis_nonconst = 2%nat /\ gen_bidx_it_fseq_axis_const = 2%nat /\ gen_bidx_fseq_it_axis_nonconst = 1%nat /\ gen_bidx_fseq_it_axis_const = 1%nat).
+Proof.
+  unfold gen_bidx_it_it_nonconst, gen_bidx_it_it_const, gen_bidx_it_num_nonconst, gen_bidx_it_num_const, gen_bidx_num_it_nonconst,
+    gen_bidx_num_it_const, gen_bidx_it_fseq_nonconst, gen_bidx_it_fseq_const, gen_bidx_fseq_it_nonconst, gen_bidx_fseq_it_const.
+  repeat split; try reflexivity; ring.
+Qed.
+Local Close Scope Z_scope.
+
+(** entries of the model's index lists *)
+Lemma idx2_nth ncols it0 it1 i j : i < length it0 -> j < length it1 ->
+  nth (i * length it1 + j) (idx2 ncols it0 it1) 0 = nth i it0 0 * ncols + nth j it1 0.
+Proof.
+  unfold idx2. revert i. induction it0 as [|a it0 IH]; intros i Hi Hj; [simpl in Hi; lia|]. simpl flat_map.
+  destruct i as [|i].
+  - simpl Nat.mul. simpl Nat.add. rewrite app_nth1 by (rewrite map_length; exact Hj).
+    rewrite (nth_indep _ 0 ((fun b => a * ncols + b) 0)) by (rewrite map_length; exact Hj). rewrite map_nth. reflexivity.
+  - rewrite app_nth2 by (rewrite map_length; simpl; lia). rewrite map_length.
+    replace (Datatypes.S i * length it1 + j - length it1) with (i * length it1 + j) by (simpl; lia).
+    simpl in Hi. rewrite IH by lia. reflexivity.
+Qed.
